@@ -71,7 +71,7 @@ def case_strategy(draw):
         holes[name] = sorted(draw(st.sets(st.integers(0, n - 1), min_size=1, max_size=k)))
     other = draw(st.sampled_from(["ignore", "raise", "Drop", "", "omit", None, 0, True])) if action == "other" else None
     return {"design": d, "frame": spec, "holes": holes, "na_action": action if action != "other" else other, "is_other": action == "other",
-            "only_used_columns": draw(st.integers(0, 3)) == 0}
+            "only_used_columns": draw(st.integers(0, 3)) == 0, "nullable_integers": action != "pass" and draw(st.integers(0, 3)) == 0}
 
 
 def used_columns(d):
@@ -103,6 +103,10 @@ def judge(ctx, case):
     rich.register_user_transform()
     d, holes, action = case["design"], case["holes"], case["na_action"]
     formula = d["formula"]
+    if case.get("nullable_integers"):
+        # integer columns held in pandas' nullable dtype: a missing value there is pd.NA, not NaN in a float column
+        case = dict(case, frame={"cols": [dict(c, kind="Int64") if c["kind"] == "int" else c for c in case["frame"]["cols"]],
+                                 "index": case["frame"].get("index")}, nullable_integers=False)
     spec = with_holes(case["frame"], holes)
     if case.get("only_used_columns"):
         keep = used_columns(d)
